@@ -375,7 +375,8 @@ Record vimport := VI {
   valias : option seg }.                   (* `import a::b as n` (KModule only) *)
 
 (* a reference in the entry file's body *)
-Inductive use := UName (x : seg) | UQual (m x : seg).
+(* `x` / `x(..)`   |   `m.x(..)` (method-call syntax)   |   `m.x` (field syntax) *)
+Inductive use := UName (x : seg) | UQual (m x : seg) | UField (m x : seg).
 
 Fixpoint lookup_dep (name : list seg) (deps : list (list seg * list decl)) : option (list decl) :=
   match deps with
@@ -389,7 +390,8 @@ Definition dep_exports (name : list seg) (deps : list (list seg * list decl)) : 
 Definition zmem (x : seg) (l : list seg) : bool := existsb (Z.eqb x) l.
 
 (* diagnostics, canonical: (1, x) = "Cannot import `x` ...: it is private or not exported",
-   (2, x) = "Unknown symbol 'x'" *)
+   (2, x) = "Unknown symbol 'x'", (3, x) = "Type 'm' has no field 'x'" (field syntax on a module
+   placeholder is rejected whatever x is) *)
 Definition diag := (Z * seg)%type.
 
 (* collect.rs validate_import_visibility: `from` imports only; silently nothing when the module
@@ -434,6 +436,7 @@ Definition check_entry (deps : list (list seg * list decl)) (own : list decl)
   flat_map (fun u => match u with
                      | UName x => if zmem x table then [] else [(2, x)]
                      | UQual m _ => if zmem m table then [] else [(2, m)]
+                     | UField m x => if zmem m table then [(3, x)] else [(2, m)]
                      end) uses.
 
 (* ------------------------------------------------------------------ rendering for the tie *)
